@@ -27,9 +27,16 @@
 (*             naga_modf, _naga_div ...)                                   *)
 (*   "g"       stands for the three characters gl_ (GLSL reserves every    *)
 (*             identifier that starts with them)                           *)
-(*   "e"       a non-ASCII letter; sanitize replaces it by u<hex>_, which  *)
-(*             is abstracted here to the symbols "a" "9" "_" (letters,     *)
-(*             digits, underscore)                                         *)
+(*   "e"       a non-ASCII letter; sanitize writes it as its escape        *)
+(*             u<hex>_ (preceded by `_` unless the buffer is empty or ends *)
+(*             in `_`), abstracted here to the symbols "u" "9" "_":        *)
+(*             "u" stands for the letters-and-digits prefix of the escape, *)
+(*             "9" for its last hex digit.  The escape ENDS in `_`, so a   *)
+(*             following `_` is collapsed, a following non-ASCII letter    *)
+(*             gets no second separator and a trailing one is trimmed:     *)
+(*             e_a -> u9_a, ee -> u9_u9 (+ `_`: digit-ending), ae -> a_u9_ *)
+(*   "u" "9"   also usable in labels: the label <<"u","9">> is the ASCII   *)
+(*             identifier that spells an escape (u00e9 next to é)          *)
 (*                                                                         *)
 (* The algorithm (identical in the three backends up to the points noted): *)
 (*   sanitize(label): drop leading digits; trim trailing underscores; keep *)
@@ -51,8 +58,10 @@
 (*                spelling is the name of a generated helper               *)
 (*   Legal        a spelling is an identifier of the target: non-empty,    *)
 (*                starts with a letter or `_`, only letters / digits / `_`,*)
-(*                GLSL: not starting with gl_ and without `__`             *)
-(* hold for the alphabet {a, 1, _, k, K, h} (h: HLSL and MSL only).  With  *)
+(*                GLSL: not starting with gl_; GLSL and MSL: without `__`; *)
+(*                MSL: not `_` followed by an upper-case letter            *)
+(* hold for the alphabet {a, 1, _, k, h, e, u, 9} (h: HLSL and MSL only;   *)
+(* K: HLSL only - in MSL the label _K is emitted unchanged).  With         *)
 (* "n", "g" (and "h" for GLSL) in the alphabet the MODEL violates          *)
 (* KeywordFree / Legal - that is what the code does; such label sequences  *)
 (* are exported as SUSPECTS and only count as findings when the real       *)
@@ -71,6 +80,8 @@
 (*   "counter_stuck"     the collision counter is not stored back   -> Injective *)
 (*   "helper_unreserved" the protected helper name is not protected -> KeywordFree *)
 (*   "no_collapse"       runs of `_` are kept                       -> Legal (GLSL) *)
+(*   "stale_escape"      the ends-in-underscore state is not updated after  *)
+(*                       an escape was written (e_a -> u9__a)        -> Legal (MSL) *)
 (***************************************************************************)
 EXTENDS Naturals, Sequences, FiniteSets, TLC, Json
 
@@ -107,22 +118,25 @@ TrimTrailing(F, s) == IF s # <<>> /\ s[Len(s)] = Under /\ "no_trim" \notin F THE
 
 EndsUnder(s) == s # <<>> /\ s[Len(s)] = Under
 
-\* the character filter: collapse underscores, expand non-ASCII
-RECURSIVE Filter(_, _, _)
-Filter(F, s, acc) ==
+\* the character filter: collapse underscores, expand non-ASCII.  eu = "the buffer ends in an underscore" as the
+\* implementation tracks it (it equals EndsUnder(acc) unless the seeded fault "stale_escape" leaves it stale after an
+\* escape was written).
+RECURSIVE Filter(_, _, _, _)
+Filter(F, s, acc, eu) ==
   IF s = <<>> THEN acc
   ELSE LET c == s[1] IN
        IF c = Under
-         THEN IF EndsUnder(acc) /\ "no_collapse" \notin F THEN Filter(F, Tail(s), acc) ELSE Filter(F, Tail(s), Append(acc, c))
+         THEN IF eu /\ "no_collapse" \notin F THEN Filter(F, Tail(s), acc, eu) ELSE Filter(F, Tail(s), Append(acc, c), TRUE)
        ELSE IF c = "e"
-         THEN Filter(F, Tail(s), (IF acc # <<>> /\ ~EndsUnder(acc) THEN Append(acc, Under) ELSE acc) \o <<"a", "9", Under>>)
-       ELSE Filter(F, Tail(s), Append(acc, c))
+         THEN Filter(F, Tail(s), (IF acc # <<>> /\ ~eu THEN Append(acc, Under) ELSE acc) \o <<"u", "9", Under>>,
+                     IF "stale_escape" \in F THEN eu ELSE TRUE)
+       ELSE Filter(F, Tail(s), Append(acc, c), FALSE)
 
 Unnamed == <<"a", "a">>
 
 Sanitize(F, label) ==
   LET s1 == TrimTrailing(F, DropLeadingDigits(label))
-      s2 == TrimTrailing(F, Filter(F, s1, <<>>))
+      s2 == TrimTrailing(F, Filter(F, s1, <<>>, FALSE))
   IN  IF s2 = <<>> THEN Unnamed ELSE s2
 
 ---------------------------------------------------------------------------
@@ -146,8 +160,9 @@ LegalSpelling(T, s) ==
   /\ s # <<>>
   /\ s[1] \in Letters \cup {Under}
   /\ \A i \in DOMAIN s : s[i] \in Letters \cup Digits \cup {Under}
-  /\ T = "glsl" => /\ s[1] # "g"
-                   /\ \A i \in 1..(Len(s) - 1) : ~(s[i] = Under /\ s[i + 1] = Under)
+  /\ T = "glsl" => s[1] # "g"
+  /\ T \in {"glsl", "msl"} => \A i \in 1..(Len(s) - 1) : ~(s[i] = Under /\ s[i + 1] = Under)   \* GLSL 3.7; C++14 [lex.name]/3
+  /\ T = "msl" => ~(Len(s) >= 2 /\ s[1] = Under /\ s[2] = "K")                                  \* C++14 [lex.name]/3: _ + upper case
 
 ReservedSpelling(T, s, inner) ==
   \/ s = <<"k">>
@@ -207,14 +222,14 @@ Leave == /\ saved # <<>>
          /\ UNCHANGED <<tgt, nsn, n, hist, dup, badkw, illegal>>
 
 \* export: the label sequences whose calls interact (same base for different labels, or a spelling that is itself
-\* a label of the sequence), and the sequences the model itself judges bad (suspects)
+\* a label of the sequence), every sequence with a non-ASCII letter, and the sequences the model itself judges bad (suspects)
 Interacts ==
   \E i, j \in DOMAIN hist : i # j /\ hist[i][4] = hist[j][4] /\
      \/ (hist[i][1] # hist[j][1] /\ hist[i][2] = hist[j][2])
      \/ hist[i][3] = hist[j][1]
 Emit ==
   /\ Export /\ n = MaxCalls /\ saved = <<>>
-  /\ (Interacts \/ dup \/ badkw \/ illegal)
+  /\ (Interacts \/ dup \/ badkw \/ illegal \/ \E i \in DOMAIN hist : \E j \in DOMAIN hist[i][1] : hist[i][1][j] = "e")
   /\ PrintT("@@" \o ToJson([target |-> tgt, labels |-> [i \in DOMAIN hist |-> hist[i][1]], spellings |-> [i \in DOMAIN hist |-> hist[i][3]],
                             ns |-> [i \in DOMAIN hist |-> hist[i][4]], dup |-> dup, badkw |-> badkw, illegal |-> illegal]))
   /\ UNCHANGED vars
@@ -249,5 +264,6 @@ SelfTest ==
    counter_stuck     |-> Detects("glsl", "counter_stuck", "Injective", {"a"}, 1, 3),
    helper_hlsl       |-> Detects("hlsl", "helper_unreserved", "KeywordFree", {"a", "h"}, 1, 1),
    helper_msl        |-> Detects("msl", "helper_unreserved", "KeywordFree", {"a", "h"}, 1, 1),
-   no_collapse       |-> Detects("glsl", "no_collapse", "Legal", {"a", "_"}, 4, 1)]
+   no_collapse       |-> Detects("glsl", "no_collapse", "Legal", {"a", "_"}, 4, 1),
+   stale_escape      |-> Detects("msl", "stale_escape", "Legal", {"a", "_", "e"}, 3, 1)]
 =============================================================================
